@@ -47,7 +47,7 @@ fn scenario(words: &[u16]) -> Scenario {
             cas.push(Ca { parent: Some(parent), key: j, module: 0, not_after: 86400 * 365, cert_fault, versions, extra_res: None });
         }
     }
-    let steps = vec![Step { publish: vec![0; cas.len()], fail_modules: vec![], offline: false, stale: None }];
+    let steps = vec![Step { publish: vec![0; cas.len()], fail_modules: vec![], offline: false, stale: None, foreign_tal_key: vec![] }];
     Scenario { cfg, cas, steps }
 }
 
